@@ -346,6 +346,10 @@ func (s *sim) outputFault(n int, kind string) string {
 			// what an IOS without enable secret answers on a vty line
 			return "% No password set\n"
 		}
+		if s.plan.Family == "ios" || s.plan.Family == "asa" {
+			// the marker line that points at the rejected word
+			return strings.Repeat(" ", 9+len(s.curLine)/2) + "^\n" + errText(s.plan.Family)
+		}
 		return errText(s.plan.Family)
 	case "garbage":
 		s.log(event{Ev: "fault", N: n, Res: "fault:garbage"})
